@@ -143,6 +143,16 @@ def classify_crash(rc, stderr, platform):
     pm = re.search(r"panicked at ([^\n:]+):(\d+):\d+:\n([^\n]*)", stderr)
     if pm and ("c08-host" in pm.group(1) or "rt-host" in pm.group(1)):
         return "inconclusive", None, "harness panic at %s: %s (%s)" % (pm.group(1), pm.group(3)[:200], where)
+    if rc is not None and rc < 0 and is_async and "RSGUEST-" not in stderr and "panicked at" not in stderr:
+        # the process died while the *host* followed guest memory at a moment the canonical ABI defines
+        signame = {-11: "sigsegv", -6: "sigabrt", -7: "sigbus"}.get(rc, "signal%d" % -rc)
+        ph = ctx.get("phase")
+        if ph == "host-reads-params-at-start":
+            return "violation", "rust-async:import:params-clobbered-before-start", "the process died with %s while the host read the lowered parameters when the callee started (%s)\n%s" % (signame, where, stderr[-600:])
+        if ph == "host-writes-results-at-return":
+            return "violation", "rust-async:mem:crash-%s:import:results-area-at-return" % signame, "the process died with %s while the host wrote the results when the callee returned (%s)\n%s" % (signame, where, stderr[-600:])
+        if ph == "host-lifts-task-return":
+            return "violation", "rust-async:mem:crash-%s:export:task-return-value" % signame, "the process died with %s while the host lifted the task.return value (%s)\n%s" % (signame, where, stderr[-600:])
     kind, sig, what = rsguest.classify_crash(rc, stderr, platform)
     if kind != "violation":
         return kind, sig, what
